@@ -15,7 +15,8 @@ RULE = ("exhaustive part: every strictly increasing array over {0..6} (size<=5 q
         "beside, between and beyond elements. Every call is judged by a post-condition attached to the real "
         "function against a definitional scan. A case is non-trivial when at least one query falls strictly "
         "inside the array's range or the array has one element (boundary branch); distinct = distinct "
-        "(array, queries, strategy, fill).")
+        "(array, queries, strategy, fill)."
+        " Also: int64 arrays beyond 2**53 with queries x[i]+-k compared exactly, unsigned arrays with integer queries, documented defaults (fill_not_valid, strategy) by omission.")
 LEVEL_TEXT = ("Post-conditions on the four real search functions, judged against a definitional scan: exhaustive over a "
               "small lattice (every array / query multiset / strategy / fill combination) plus random float arrays "
               "with +-1 ulp queries. Exhaustive on the stated finite sub-space, sampled beyond it.")
